@@ -105,8 +105,13 @@ def reuse_conditions(k=1, stride=4, T=300):
         i += 1
         if i % stride:
             continue
+        from kit.pdrive import TAG, COMMENT
         before = [seq + [OTHER] * k, seq + [FEATURE] * k, [FEATURE, SCENARIO, STEP, DOCA, OTHER], seq + [TAGBAD] * k,
-                  [FEATURE, SCENARIO, STEP, ROW1, ROW2], seq + [STEP] * k]
+                  [FEATURE, SCENARIO, STEP, ROW1, ROW2], seq + [STEP] * k,
+                  # a parse that is aborted (stop mode: ragged table noticed when the tag line closes it; collecting mode: at the eleventh
+                  # error) while look-ahead tokens are still queued
+                  [FEATURE, SCENARIO, STEP, ROW1, ROW2, TAG, COMMENT, SCENARIO, STEP],
+                  [OTHER] * 10 + [FEATURE, SCENARIO, STEP, ROW1, ROW2, TAG, TAG, SCENARIO]]
         for stop in (False, True):
             cs.append(Cond("harness.pdrv", fn[k], {"prefix": seq, "k": k, "stop": stop, "before": before}, T=T,
                            label="pdrv.%s[reuse,%sprefix=%s]" % (fn[k], "stop," if stop else "", ",".join(map(str, seq)))))
